@@ -24,10 +24,11 @@ func (a Addr) String() string  { return a.S }
 type NetErr struct {
 	Msg  string
 	Temp bool
+	TO   bool
 }
 
 func (e *NetErr) Error() string   { return e.Msg }
-func (e *NetErr) Timeout() bool   { return false }
+func (e *NetErr) Timeout() bool   { return e.TO }
 func (e *NetErr) Temporary() bool { return e.Temp }
 
 var ErrClosed = errors.New("memnet: use of closed connection")
@@ -66,8 +67,9 @@ type Conn struct {
 	local  Addr
 	remote Addr
 
-	in       [][]byte // fragments not yet read
-	inErr    error    // returned by Read once `in` is empty (io.EOF, read error)
+	rdl      time.Time // read deadline (zero: none)
+	in       [][]byte  // fragments not yet read
+	inErr    error     // returned by Read once `in` is empty (io.EOF, read error)
 	closed   bool
 	nclose   int
 	blocked  int // goroutines currently parked in Read
@@ -132,10 +134,21 @@ func (c *Conn) FeedErr(err error) {
 func (c *Conn) Read(p []byte) (int, error) {
 	c.mu.Lock()
 	c.nreadBeg++
-	for len(c.in) == 0 && c.inErr == nil && !c.closed {
+	expired := func() bool { return !c.rdl.IsZero() && !time.Now().Before(c.rdl) }
+	for len(c.in) == 0 && c.inErr == nil && !c.closed && !expired() {
 		c.blocked++
 		c.obs.Broadcast() // wake WaitReaderBlocked
-		c.cond.Wait()
+		if c.rdl.IsZero() {
+			c.cond.Wait()
+		} else {
+			t := time.AfterFunc(time.Until(c.rdl)+time.Millisecond, func() {
+				c.mu.Lock()
+				c.cond.Broadcast()
+				c.mu.Unlock()
+			})
+			c.cond.Wait()
+			t.Stop()
+		}
 		c.blocked--
 	}
 	var n int
@@ -143,6 +156,8 @@ func (c *Conn) Read(p []byte) (int, error) {
 	switch {
 	case c.closed:
 		err = ErrClosed
+	case expired(): // like a socket: a passed deadline fails the call even if data has arrived meanwhile
+		err = &NetErr{Msg: "memnet: i/o timeout", TO: true}
 	case len(c.in) > 0:
 		n = copy(p, c.in[0])
 		if n == len(c.in[0]) {
@@ -215,10 +230,16 @@ func (c *Conn) Close() error {
 	return nil
 }
 
-func (c *Conn) LocalAddr() net.Addr                { return c.local }
-func (c *Conn) RemoteAddr() net.Addr               { return c.remote }
-func (c *Conn) SetDeadline(t time.Time) error      { return nil }
-func (c *Conn) SetReadDeadline(t time.Time) error  { return nil }
+func (c *Conn) LocalAddr() net.Addr           { return c.local }
+func (c *Conn) RemoteAddr() net.Addr          { return c.remote }
+func (c *Conn) SetDeadline(t time.Time) error { return c.SetReadDeadline(t) }
+func (c *Conn) SetReadDeadline(t time.Time) error {
+	c.mu.Lock()
+	c.rdl = t
+	c.cond.Broadcast()
+	c.mu.Unlock()
+	return nil
+}
 func (c *Conn) SetWriteDeadline(t time.Time) error { return nil }
 
 // ---- observation side
